@@ -26,11 +26,11 @@ import (
 // harness measures them once on one-route configurations (calibrate) and the
 // reference then applies the same reading to every case.
 type interp struct {
-	CollapseSlashes bool `json:"collapse_slashes"`    // "//a" is treated as "/a"
-	HostDotStripped bool `json:"host_dot_stripped"`   // "h1." is host h1
-	EmptyHostIsAny  bool `json:"empty_host_is_any"`   // host "*" accepts a request without Host
-	HeaderCommaList bool `json:"header_comma_list"`   // "X: 2, 1" carries the value 1
-	UnmapV4InV6     bool `json:"unmap_v4_in_v6"`      // ::ffff:10.1.2.3 is 10.1.2.3
+	CollapseSlashes bool `json:"collapse_slashes"`  // "//a" is treated as "/a"
+	HostDotStripped bool `json:"host_dot_stripped"` // "h1." is host h1
+	EmptyHostIsAny  bool `json:"empty_host_is_any"` // host "*" accepts a request without Host
+	HeaderCommaList bool `json:"header_comma_list"` // "X: 2, 1" carries the value 1
+	UnmapV4InV6     bool `json:"unmap_v4_in_v6"`    // ::ffff:10.1.2.3 is 10.1.2.3
 }
 
 // criteria of a match shape, written by hand next to matchDSL
